@@ -1,7 +1,8 @@
 (* The model programs of Engine/Ops.v follow the expected effect skeleton: proofs by
    computation over the finite scenario space of Engine/SkeletonModel.v, lifted to
-   quantified statements.  The lifting lemmas are generic in the table, so that the kernel
-   never has to convert terms that contain the (closed, evaluable) expected table. *)
+   quantified statements.  The lifting lemmas are fully generic (abstract lists and
+   predicates), so that at Qed the kernel never has to convert terms that contain closed,
+   evaluable computations other than by beta. *)
 From Coq Require Import List String Bool Arith Lia.
 From Helm Require Import Engine.Types Engine.Eff Engine.Ops Engine.Skeleton Engine.SkeletonExpected
                          Engine.SkeletonModel.
@@ -13,22 +14,44 @@ Proof. unfold fb. intros P H b. apply andb_prop in H. destruct H, b; assumption.
 Lemma forallb_In {A} (f : A -> bool) l : forallb f l = true -> forall x, In x l -> f x = true.
 Proof. intro H. apply forallb_forall. exact H. Qed.
 
-Lemma check_failures_lift (t : table) (rt : rtable) :
-  check_failures t rt = true ->
-  forall o fl l ad,
-    In o ops -> In fl (flag_space o) -> In l ledgers ->
-    follows t rt (mkScen o fl l ad) [] = true /\
-    forall n, n < List.length (model_trace (mkScen o fl l ad) []) ->
-              follows t rt (mkScen o fl l ad) [n] = true.
+Lemma lift3 {B C} (lb : list B) (lc : list C) (P : B -> C -> bool -> bool) :
+  forallb (fun b => forallb (fun c => fb (fun d => P b c d)) lc) lb = true ->
+  forall b c d, In b lb -> In c lc -> P b c d = true.
 Proof.
-  intros H o fl l ad Ho Hfl Hl. unfold check_failures in H.
-  pose proof (forallb_In _ _ H o Ho) as H1. cbv beta in H1.
-  pose proof (forallb_In _ _ H1 fl Hfl) as H2. cbv beta in H2.
-  pose proof (forallb_In _ _ H2 l Hl) as H3. cbv beta in H3.
-  pose proof (fb_spec _ H3 ad) as Hs. cbv beta in Hs.
-  unfold scen_ok in Hs. apply andb_prop in Hs. destruct Hs as [H0 H1'].
+  intros H b c d Hb Hc.
+  pose proof (forallb_In _ _ H b Hb) as H2.
+  pose proof (forallb_In _ _ H2 c Hc) as H3.
+  exact (fb_spec _ H3 d).
+Qed.
+
+Lemma lift2 {C} (lc : list C) (P : C -> bool -> bool) :
+  forallb (fun c => fb (fun d => P c d)) lc = true ->
+  forall c d, In c lc -> P c d = true.
+Proof.
+  intros H c d Hc.
+  exact (fb_spec _ (forallb_In _ _ H c Hc) d).
+Qed.
+
+Lemma single_ok_spec (F : list nat -> bool) (len : nat) :
+  single_ok F len = true -> F [] = true /\ forall n, n < len -> F [n] = true.
+Proof.
+  intro H. apply andb_prop in H. destruct H as [H0 H1].
   split; [exact H0|].
-  intros n Hn. apply (forallb_In _ _ H1' n). apply in_seq. lia.
+  intros n Hn. apply (forallb_In _ _ H1 n). apply in_seq. lia.
+Qed.
+
+Lemma all_flags_spec (mh v : nat) (P : flags -> bool) :
+  all_flags mh v P = true -> forall a c k r h d o t, P (mkFlags a c k r mh h d o t v) = true.
+Proof.
+  intros H a c k r h d o t. unfold all_flags in H.
+  pose proof (fb_spec _ H a) as H1.
+  pose proof (fb_spec _ H1 c) as H2.
+  pose proof (fb_spec _ H2 k) as H3.
+  pose proof (fb_spec _ H3 r) as H4.
+  pose proof (fb_spec _ H4 h) as H5.
+  pose proof (fb_spec _ H5 d) as H6.
+  pose proof (fb_spec _ H6 o) as H7.
+  exact (fb_spec _ H7 t).
 Qed.
 
 (* the resolved expected table, in normal form *)
@@ -44,18 +67,31 @@ Proof. vm_compute. reflexivity. Qed.
 Lemma expected_closed : table_closed expected = true.
 Proof. vm_compute. reflexivity. Qed.
 
-Lemma check_failures_expected : check_failures expected rexpected = true.
-Proof. vm_cast_no_check (eq_refl true). Qed.
-
-(* failure-free runs, and runs in which exactly the n-th effect fails, for every option
-   assignment of the operation's flag space, every ledger, adoption or not *)
-Lemma model_follows_skeleton_lemma :
-  forall o fl l ad,
-    In o ops -> In fl (flag_space o) -> In l ledgers ->
-    follows expected rexpected (mkScen o fl l ad) [] = true /\
+(* what the per-operation files prove by computation, lifted *)
+Lemma check_op_lift (o : opk) (t : table) (rt : rtable) :
+  check_op o t rt = true ->
+  forall fl l ad,
+    In fl (flag_space o) -> In l ledgers ->
+    follows t rt (mkScen o fl l ad) [] = true /\
     forall n, n < List.length (model_trace (mkScen o fl l ad) []) ->
-              follows expected rexpected (mkScen o fl l ad) [n] = true.
-Proof. exact (check_failures_lift expected rexpected check_failures_expected). Qed.
+              follows t rt (mkScen o fl l ad) [n] = true.
+Proof.
+  intros H fl l ad Hfl Hl.
+  exact (single_ok_spec _ _
+           (lift3 (flag_space o) ledgers (fun fl l ad => scen_ok t rt (mkScen o fl l ad))
+                  H fl l ad Hfl Hl)).
+Qed.
+
+Lemma check_op_all_flags_lift (o : opk) (t : table) (rt : rtable) :
+  check_op_all_flags o t rt = true ->
+  forall a c k r h d co tk l ad,
+    In l ledgers ->
+    follows t rt (mkScen o (mkFlags a c k r 2 h d co tk 0) l ad) [] = true.
+Proof.
+  intros H a c k r h d co tk l ad Hl.
+  pose proof (all_flags_spec 2 0 _ H a c k r h d co tk) as H1. cbv beta in H1.
+  exact (lift2 ledgers (fun l ad => follows t rt (mkScen o (mkFlags a c k r 2 h d co tk 0) l ad) []) H1 l ad Hl).
+Qed.
 
 (* the checker is not vacuous: it rejects the model's install trace with the storage create
    moved behind the cluster create, and with the final status update dropped *)
@@ -71,12 +107,15 @@ Lemma checker_rejects_reordered :
 Proof. vm_compute. reflexivity. Qed.
 
 Lemma checker_rejects_dropped :
-  raccepts rexpected [DHistory; KcExisting false; DCreate; KcCreate; KcWait]
+  raccepts rexpected [DHistory; KcExisting false; KcCreate; KcWait; DUpdate]
            FUEL (index_of "Install.RunWithContext" expected) (env_of (sc_fl s_install)) = false.
 Proof. vm_compute. reflexivity. Qed.
 
-(* the scenario space is not trivial: the number of (scenario, failure position) runs *)
-Definition count_runs : nat :=
-  fold_right Nat.add 0
-    (flat_map (fun o => flat_map (fun fl => flat_map (fun l => map (fun ad =>
-       S (List.length (model_trace (mkScen o fl l ad) []))) bools) ledgers) (flag_space o)) ops).
+(* a limit, stated: "the resource wait is followed by nothing" is a path of the skeleton,
+   because performInstallCtx may return the context's error (the select on ctx.Done()) after
+   the goroutine has run, and the translator cannot see that ctx.Err() is non-nil there *)
+Lemma checker_accepts_uncorrelated :
+  raccepts rexpected [DHistory; KcExisting false; DCreate; KcCreate; KcWait]
+           FUEL (index_of "Install.RunWithContext" expected) (env_of (sc_fl s_install)) = true.
+Proof. vm_compute. reflexivity. Qed.
+
